@@ -181,4 +181,4 @@ class InterpolatedThresholder(MetaEstimatorMixin, BaseEstimator):
         check_is_fitted(self)
         random_state = check_random_state(random_state)
         positive_probs = self._pmf_predict(X, sensitive_features=sensitive_features)[:, 1]
-        return (positive_probs >= random_state.rand(len(positive_probs))) * 1
+        return (positive_probs > random_state.rand(len(positive_probs))) * 1
